@@ -108,7 +108,7 @@ class PytorchEngine(BackendEngine):
             # Normalize dW_LA
             unit_dW_LA = dW_LA[i] / (torch.norm(dW_LA[i]) + torch.finfo(float).tiny)
             # Project
-            proj = torch.sum(torch.inner(unit_dW_LA, dW_LP[i]))
+            proj = torch.sum(unit_dW_LA * dW_LP[i])
             # Calculate dW
             p.grad = dW_LP[i] - (proj * unit_dW_LA) - (self.base.alpha * dW_LA[i])
 
